@@ -11,6 +11,8 @@ BACKOFF_ENDS = [1, 3, 7, 15, 31, 63, 127, 227, 327]  # ms at which the 1..100 ms
 def status_menu():
     m = [{"k": "exited", "v": c} for c in range(256)]
     m += [{"k": "signaled", "v": s} for s in list(range(1, 32)) if s not in (17, 18, 19, 20, 21, 22, 23, 28)]
+    # the signals whose default action dumps core, with the "core dumped" bit set in the wait status
+    m += [{"k": "signaled", "v": s, "core": True} for s in (3, 4, 5, 6, 7, 8, 11, 24, 25, 31)]
     return m
 
 
